@@ -4,6 +4,7 @@
 -/
 import Rivia.Spec.MemfsJudge
 import Rivia.Lemmas.PathBasics
+import Rivia.Lemmas.MovedEntry
 namespace Rivia.Lemmas.Noop
 open Rivia Rivia.Memfs Rivia.Spec Rivia.Memfs.M
 
@@ -747,7 +748,7 @@ def kidsOf (e : Entry) : List FsPath :=
 
 /-- the state after the entry `e` stored under `p` was re-inserted under `dst` -/
 def movedState (p dst : FsPath) (e : Entry) (σ : State) : State :=
-  { σ with entries := alInsert dst { e with path := dst } (alErase p σ.entries),
+  { σ with entries := alInsert dst { e with path := dst, rel := movedRel e dst } (alErase p σ.entries),
            files := match alLookup p σ.files with
              | some b => alInsert dst b (alErase p σ.files)
              | none => alErase p σ.files }
@@ -761,15 +762,16 @@ theorem moveLoop_missing {S dR : FsPath} {ci : Bool} (hS : S ≠ []) {p : FsPath
 /-- an iteration whose source parent is gone (every path except the root of the move) -/
 theorem moveLoop_child {S dR : FsPath} {ci : Bool} (hS : S ≠ []) {p : FsPath} {W : List FsPath} {σ : State}
     {e : Entry} (f : Nat) (hp : p ≠ []) (he : alLookup p σ.entries = some e)
+    (hdne : dstOf dR p (preOf S ci) ≠ [])
     (hpar : alLookup p.dropLast (movedState p (dstOf dR p (preOf S ci)) e σ).entries = none) :
     moveLoop S dR ci (f + 1) (p :: W) σ =
       moveLoop S dR ci f ((kidsOf e).reverse ++ W) (movedState p (dstOf dR p (preOf S ci)) e σ) := by
-  rw [moveLoop]
+  rw [moveLoop_succ_cons]
   unfold movedState at hpar ⊢
   cases ci <;>
-  · simp only [preOf, Bool.false_eq_true, if_false, if_true] at hpar ⊢
-    simp only [mpure_bind_apply, removeEntry_bind_apply, he, setEntry_bind_apply,
-      removeFile_bind_apply, dirOf, hS, if_false]
+  · simp only [preOf, Bool.false_eq_true, if_false, if_true] at hpar hdne ⊢
+    simp only [mpure_bind_apply, removeEntry_bind_apply, he, movedRelM_eq_pure (movedOk_of_ne hdne),
+      setEntry_bind_apply, removeFile_bind_apply, dirOf, hS, if_false]
     cases hb : alLookup p σ.files with
     | none =>
       simp only [mpure_bind_apply, dirOf, hp, if_false, getEntry_bind_apply, kidsOf]
@@ -792,12 +794,12 @@ theorem moveLoop_root {S dR : FsPath} {ci : Bool} (hS : S ≠ []) {p : FsPath} {
         { movedState p (dstOf dR p (preOf S ci)) e σ with
           entries := alInsert (dstOf dR p (preOf S ci)).dropLast np'
             (alInsert p.dropLast op' (movedState p (dstOf dR p (preOf S ci)) e σ).entries) } := by
-  rw [moveLoop]
+  rw [moveLoop_succ_cons]
   unfold movedState at hpar hnp ⊢
   cases ci <;>
   · simp only [preOf, Bool.false_eq_true, if_false, if_true] at hpar hnp hadd hdst ⊢
-    simp only [mpure_bind_apply, removeEntry_bind_apply, he, setEntry_bind_apply,
-      removeFile_bind_apply, dirOf, hS, if_false]
+    simp only [mpure_bind_apply, removeEntry_bind_apply, he, movedRelM_eq_pure (movedOk_of_ne hdst),
+      setEntry_bind_apply, removeFile_bind_apply, dirOf, hS, if_false]
     cases hb : alLookup p σ.files with
     | none =>
       simp only [mpure_bind_apply, hp, hdst, if_false, getEntry_bind_apply, kidsOf]
@@ -1065,7 +1067,7 @@ theorem moveLoop_noerr {st : State} {S D dR : FsPath} {ci : Bool} (ctx : MoveCtx
           ⟨hJ.nodup, fun q hq => hJ.child q (by simp [hq]), fun q hq => hJ.exist q (by simp [hq]),
             fun q hq => hJ.intact q (by simp [hq]), fun q hq => hJ.orphan q (by simp [hq]),
             (List.pairwise_cons.1 hJ.apart).2⟩
-        rw [moveLoop_child ctx.hS f hpne hpσ (by
+        rw [moveLoop_child ctx.hS f hpne hpσ (by rw [hdst]; simp [ctx.hD]) (by
           rw [hdst, hsub _ hpar, if_neg (dropLast_ne_self hpne)]
           exact hJ.orphan p (by simp))] at he
         rw [hdst] at he
